@@ -75,7 +75,19 @@ def do_replay(cid, path, as_json=False):
         fails = check.replay_custom(rec)
     else:
         root = _tuplify(rec["initial"])
-        st = check.build(root)
+        try:
+            st = check.build(root)
+        except core.HarnessError:
+            raise
+        except Exception as e:  # same conversion as the explorer: build runs menpo code too
+            import traceback
+
+            out = [core.Failure("build", "unexpected-exception", "%s: %s\n%s" % (type(e).__name__, e, traceback.format_exc()[-1200:])).as_dict()]
+            if as_json:
+                print("REPLAY-JSON " + json.dumps(out, sort_keys=True))
+            else:
+                print("REPLAY-FAIL build/unexpected-exception: %s" % out[0]["detail"])
+            return 1
         fails = list(check.check_root(st, root)) if rec["op"] is None and not rec["ops"] else []
         for op in [_tuplify(o) for o in rec["ops"]]:
             check.apply(st, op, verify=False)
